@@ -7,6 +7,7 @@ package main
 // content was signed by that identity in captured traffic.
 
 import (
+	"sort"
 	"fmt"
 
 	"github.com/orbs-network/lean-helix-go/services/interfaces"
@@ -120,6 +121,18 @@ func (a *adversary) share(id primitives.MemberId, height primitives.BlockHeight,
 	switch {
 	case mode == "forged":
 		return a.forge()
+	case mode == "stolen": // the (valid) share some OTHER member put into its own COMMIT at this height, replayed under this sender's name
+		var keys []string
+		for k := range a.shares {
+			if k.height == uint64(height) && k.content == "" && k.id != string(id) {
+				keys = append(keys, k.id)
+			}
+		}
+		if len(keys) == 0 {
+			return a.forge()
+		}
+		sort.Strings(keys)
+		return a.shares[capKey{keys[0], uint64(height), ""}]
 	case a.canSignAs(id):
 		return a.cl.ring.share(id, uint64(height), a.seedBytes(uint64(height)))
 	default:
